@@ -1,6 +1,7 @@
 import SkoolVerif.Proofs.CmioVsSimRun
 import SkoolVerif.Proofs.CVsPyExamples
 import SkoolVerif.Proofs.CVsPyInterrupt
+import SkoolVerif.Proofs.RunLoop
 /-!
 C06 — all four simulator implementations execute every program identically.
 
@@ -168,5 +169,120 @@ example : CSimH.OutOkAll Mem48 {} := Or.inr (fun _ _ _ => rfl)
 example : CSimH.cArgsOk (.add_rr .R1 11 1 6 7 2 3) = true ∧ CSimH.cArgsOk (.ld_rr_nn .R1 10 4 13 12) = false := by decide
 -- a concrete C step: NOP at PC 0 of the all-zero 128K state
 example : (CSimH.step {} CVsPyEx.st128).pc = 1 ∧ (CSimH.step {} CVsPyEx.st128).t = 4 := by decide +kernel
+
+
+/-! ### the run loops around the handlers: `Simulator.run` and `CSimulator_run`, both translated on every run
+
+`translate/pyloop2lean.py` turns `Simulator.run`, `Simulator.accept_interrupt` and `CMIOSimulator.accept_interrupt` into
+`Gen/PyLoops.lean`; `translate/cloop2lean.py` turns `CSimulator_run` (both builds; the macro `GET_OPCODE_FUNC` expanded, the
+Python-C-API boilerplate recognised by exact text) into `Gen/CLoops/run.lean` / `Gen/CCmioLoops/run.lean`: an iteration function
+per `while` loop (statement order preserved) and its fuel-bounded iteration (`Z80.iterate`).  `RunLoop.run` / `RunLoop.runC`
+(`Proofs/RunLoopDefs.lean`) are the common values of the two sides, not models. -/
+
+/-- **Plain pair.**  For every `start`/`stop`/`interrupts` (addresses, when given, in 0..65535), every in-range state, every fuel for
+which the clock stays below 2^63 (a pass adds at most 23 + 19 T-states): the translated C loop and the translated Python loop end in
+the same state with the same "finished" flag.  `FrameOk`: an instruction, an interrupt response and the INT pulse fit into a frame
+(what Python's `next_int` bookkeeping assumes; both machine configurations: `run_loop_hypotheses_hold`).  `hsi`: without `stop` the
+two functions agree only when no interrupts are asked for (`c_run_loop_full_false`). -/
+theorem c_run_loop_eq_python_run_loop {μ : Type} [MemLike μ] [CellMem μ] (cfg : Cfg) (hcfg : CSimH.CfgRep cfg)
+    (hf : TraceLoop.FrameOk cfg Tshift.maxDur) (hout : CSimH.OutOkAll μ cfg) (fuel : Nat) (start stop : Option Int) (interrupts : Bool)
+    (s : St μ) (h : RInv s) (hstart : ∀ v, start = some v → 0 ≤ v ∧ v < 65536) (hstop : ∀ v, stop = some v → 0 ≤ v ∧ v < 65536)
+    (hsi : stop = none → interrupts = false ∧ 0 < fuel)
+    (ht : s.t + fuel * (Tshift.maxDur + 19) < 9223372036854775808) :
+    CSimH.Loop.run cfg fuel start stop (some interrupts) s = PyLoop.Sim.run cfg fuel start stop interrupts s :=
+  RunLoop.c_run_eq_py_run cfg hcfg hf hout fuel start stop interrupts s h hstart hstop hsi ht
+
+/-- **Contended pair** (`-DCONTENTION` build against `CMIOSimulator`, whose `run` is the inherited text over the contended closures and
+the overriding `accept_interrupt`); a pass adds at most 143 + 19 T-states. -/
+theorem c_cmio_run_loop_eq_python_run_loop {μ : Type} [MemLike μ] [CellMem μ] [PageStable μ] (cfg : Cfg) (hcfg : CSimH.CfgRep cfg)
+    (hf : TraceLoop.FrameOk cfg Tshift.maxDurCmio) (hout : CSimH.OutOkAll μ cfg) (fuel : Nat) (start stop : Option Int)
+    (interrupts : Bool) (s : St μ) (h : RInv s) (hstart : ∀ v, start = some v → 0 ≤ v ∧ v < 65536)
+    (hstop : ∀ v, stop = some v → 0 ≤ v ∧ v < 65536) (hsi : stop = none → interrupts = false ∧ 0 < fuel)
+    (ht : s.t + fuel * (Tshift.maxDurCmio + 19) < 9223372036854775808) :
+    CCmioH.Loop.run cfg fuel start stop (some interrupts) s = PyLoop.Cmio.run cfg fuel start stop interrupts s :=
+  RunLoop.c_cmio_run_eq_py_run cfg hcfg hf hout fuel start stop interrupts s h hstart hstop hsi ht
+
+/-- What both compute, on the machine state alone: one instruction, then the interrupt iff `interrupts`, IFF and
+`T % frame_duration < int_active` (`RunLoop.iter`), until PC = `stop`.  For the Python side this needs no range hypothesis at all:
+the `next_int` variable of `Simulator.run` is a function of the clock (cf. C10 `python_loop_eq_c_loop` for `Tracer.run`). -/
+theorem python_run_loop_is_stateless {μ : Type} [MemLike μ] (cfg : Cfg) (fuel : Nat) (start stop : Option Int) (interrupts : Bool) (s : St μ) :
+    (TraceLoop.FrameOk cfg Tshift.maxDur → PyLoop.Sim.run cfg fuel start stop interrupts s = RunLoop.run RunLoop.simM cfg fuel start stop interrupts s) ∧
+    (TraceLoop.FrameOk cfg Tshift.maxDurCmio → PyLoop.Cmio.run cfg fuel start stop interrupts s = RunLoop.run RunLoop.cmioM cfg fuel start stop interrupts s) :=
+  ⟨fun hf => RunLoop.py_run cfg hf fuel start stop interrupts s, fun hf => RunLoop.py_cmio_run cfg hf fuel start stop interrupts s⟩
+
+/-- … and the invariant itself: however many passes the Python loop makes, its `next_int` is the start of the frame whose INT pulse has
+not ended yet (or, directly after an accepted interrupt, ended less than 19 T-states ago): `TraceLoop.Sched` -/
+theorem python_run_next_int_function_of_clock {μ : Type} [MemLike μ] (cfg : Cfg) (hf : TraceLoop.FrameOk cfg Tshift.maxDur)
+    (start : Option Int) (stop : Int) (interrupts : Bool) (fuel : Nat) (s : St μ) (l : PyLoop.Sim.RunLocals) (hl : l.pc = s.pc)
+    (hs : TraceLoop.Sched cfg l.next_int s.t) :
+    TraceLoop.Sched cfg (PyLoop.Sim.run_loop1 cfg start (some stop) interrupts fuel s l).1.2.next_int
+      (PyLoop.Sim.run_loop1 cfg start (some stop) interrupts fuel s l).1.1.t := by
+  obtain ⟨l', h1, h2⟩ := RunLoop.py_loop1 cfg hf start stop interrupts fuel s l hl hs
+  rw [h1]; exact h2
+
+/-- One pass of the translated C loop body, read off its text: the expansion of `GET_OPCODE_FUNC` selects the row `CSimH.leafOf`
+selects (the hand model of that macro in `c_fetch_eq_python` is hereby derived from the macro's text), the handler runs, then
+`accept_interrupt(self, pc)` iff `interrupts && REG(IFF) && TIME % frame_duration < int_active`, then `stop > 0xFFFF || REG(PC) == stop`. -/
+theorem c_run_loop_pass {μ : Type} [MemLike μ] [CellMem μ] (cfg : Cfg) (s : St μ) (l : CSimH.Loop.RunLocals) (h : RInv s) :
+    CSimH.Loop.run_loop1_body cfg s l =
+      ((RunLoop.cIter cfg l.interrupts l.frame_duration l.int_active s, l),
+        if l.stop > 65535 ∨ CInt.u32 (RunLoop.cIter cfg l.interrupts l.frame_duration l.int_active s).pc = l.stop then .break_ else .continue_) :=
+  RunLoop.c_body cfg s l h
+
+/-- The loop against runs of instructions (`c_run_eq_python`'s `runN`): `k + 1` instructions with no interrupt accepted on the way
+(`RunLoop.Quiet`: not asked for, or disabled, or outside the pulse) and `stop` first reached after the last: the loop ends in exactly
+the state of the `k + 1` instructions.  With `interrupts = False` the `Quiet` hypothesis is `RunLoop.quiet_of_no_ints`. -/
+theorem run_loop_eq_runN {μ : Type} [MemLike μ] (cfg : Cfg) (hf : TraceLoop.FrameOk cfg Tshift.maxDur) (fuel k : Nat) (stop : Int)
+    (interrupts : Bool) (s : St μ) (hk : k < fuel) (hq : ∀ j, j ≤ k → RunLoop.Quiet RunLoop.simM interrupts cfg (Sim.runN cfg j s))
+    (hne : ∀ j, 0 < j → j ≤ k → (Sim.runN cfg j s).pc ≠ stop) (hstop : (Sim.runN cfg (k + 1) s).pc = stop) :
+    PyLoop.Sim.run cfg fuel none (some stop) interrupts s = (Sim.runN cfg (k + 1) s, true) :=
+  RunLoop.py_run_eq_runN cfg hf fuel k stop interrupts s hk hq hne hstop
+
+theorem cmio_run_loop_eq_runN {μ : Type} [MemLike μ] (cfg : Cfg) (hf : TraceLoop.FrameOk cfg Tshift.maxDurCmio) (fuel k : Nat) (stop : Int)
+    (interrupts : Bool) (s : St μ) (hk : k < fuel) (hq : ∀ j, j ≤ k → RunLoop.Quiet RunLoop.cmioM interrupts cfg (Cmio.runN cfg j s))
+    (hne : ∀ j, 0 < j → j ≤ k → (Cmio.runN cfg j s).pc ≠ stop) (hstop : (Cmio.runN cfg (k + 1) s).pc = stop) :
+    PyLoop.Cmio.run cfg fuel none (some stop) interrupts s = (Cmio.runN cfg (k + 1) s, true) :=
+  RunLoop.py_cmio_run_eq_runN cfg hf fuel k stop interrupts s hk hq hne hstop
+
+/-- `Simulator.accept_interrupt` and `CMIOSimulator.accept_interrupt` ARE translated now, and equal the hand model
+`TraceLoop.acceptInterrupt` that C10 reasons about — which is the same function as C20's `Rzx.acceptInterrupt`: with
+`c_accept_interrupt_eq_model` all four implementations of `accept_interrupt` and both hand models are one function. -/
+theorem python_accept_interrupt_eq_model {μ : Type} [MemLike μ] (cfg : Cfg) (prevPc : Int) (s : St μ) :
+    PyLoop.Sim.accept_interrupt cfg prevPc s = TraceLoop.acceptInterrupt false s prevPc ∧
+    PyLoop.Cmio.accept_interrupt cfg prevPc s = TraceLoop.acceptInterrupt true s prevPc ∧
+    (∀ c, (TraceLoop.acceptInterrupt c s prevPc).1 = Rzx.acceptInterrupt c prevPc s) :=
+  ⟨RunLoop.py_accept_eq cfg prevPc s, RunLoop.py_cmio_accept_eq cfg prevPc s, fun c => RunLoop.traceLoop_accept_eq_rzx c s prevPc⟩
+
+/-- The full statement without the side condition on `stop` … -/
+def C06_run_loop_full : Prop :=
+  ∀ (cfg : Cfg), CSimH.CfgRep cfg → TraceLoop.FrameOk cfg Tshift.maxDurCmio → CSimH.OutOkAll Mem128 cfg →
+    ∀ (fuel : Nat) (start stop : Option Int) (interrupts : Bool) (s : St Mem128), RInv s →
+      (∀ v, start = some v → 0 ≤ v ∧ v < 65536) → (∀ v, stop = some v → 0 ≤ v ∧ v < 65536) → 0 < fuel →
+      s.t + fuel * (Tshift.maxDurCmio + 19) < 9223372036854775808 →
+      CSimH.Loop.run cfg fuel start stop (some interrupts) s = PyLoop.Sim.run cfg fuel start stop interrupts s
+
+/-- … is false: `run(start, interrupts=True)` WITHOUT `stop`.  `Simulator.run` then executes one instruction and returns
+(`if stop is None: opcodes[memory[pc]]()`); `CSimulator_run` goes through its loop once, interrupt test included.  Witness: NOP at PC 0,
+IFF = 1, T = 0: C ends at PC 0x38 (interrupt accepted), Python at PC 1 — same for the contended pair (`RunLoop.run_nostop_differs`).
+Replayed on the real classes by `harness/looprun.py` (key `run-without-stop-accepts-interrupt-in-c`); no tool calls `run` without
+`stop` and with interrupts (skoolmacro.py always passes `stop`), so the difference is reachable through the classes' API only. -/
+theorem c_run_loop_full_false : ¬ C06_run_loop_full := by
+  intro h
+  have e := h RunLoop.witCfg RunLoop.witCfg_rep RunLoop.witCfg_frame (Or.inl rfl) 1 none none true RunLoop.wit RunLoop.wit_inv
+    (fun _ h => nomatch h) (fun _ h => nomatch h) (by decide) (by decide)
+  have w := RunLoop.run_nostop_differs
+  rw [e] at w
+  omega
+
+/-- the hypotheses are satisfiable, and the theorems are about loops that do run: both machine configurations have the frame layout;
+a concrete in-range state; three NOPs to a stop address; an interrupt accepted inside the loop (T = 4 + 13) -/
+theorem run_loop_hypotheses_hold :
+    TraceLoop.FrameOk (Contend.cfgFor false) Tshift.maxDurCmio ∧ TraceLoop.FrameOk (Contend.cfgFor true) Tshift.maxDurCmio ∧
+    RInv RunLoop.wit ∧ CSimH.CfgRep RunLoop.witCfg ∧ CSimH.OutOkAll Mem128 RunLoop.witCfg ∧
+    (PyLoop.Sim.run RunLoop.witCfg 5 none (some 3) false RunLoop.wit).1.pc = 3 ∧
+    (PyLoop.Sim.run RunLoop.witCfg 5 none (some 56) true RunLoop.wit).1.t = 17 ∧
+    (CSimH.Loop.run RunLoop.witCfg 5 none (some 56) (some true) RunLoop.wit).1.t = 17 :=
+  ⟨RunLoop.frameOk_machines.1, RunLoop.frameOk_machines.2, RunLoop.wit_inv, RunLoop.witCfg_rep, Or.inl rfl,
+    RunLoop.run_examples.2.1, RunLoop.run_examples.2.2.2.1, RunLoop.run_examples.2.2.2.2.1⟩
 
 end C06
